@@ -416,7 +416,11 @@ func (w *World) Step(st string) bool {
 		spec := instantiate(w.alpha[i], w.nIssued)
 		var err error = errors.New("not returned")
 		t := w.s.Spawn("batch", func() {
-			b, e := w.coll.NewBatch(16, 512)
+			nbytes := 512
+			for _, o := range spec.Ops {
+				nbytes += len(o.Key) + len(o.Val)
+			}
+			b, e := w.coll.NewBatch(16, nbytes)
 			if e != nil {
 				err = e
 				return
